@@ -337,6 +337,11 @@ impl Ctx {
         self.machinery_errors.lock().unwrap().push(s);
     }
 
+    /// Whether the internal wall cap of this tier has passed (custom loops honour it like `universe` does).
+    pub fn past_deadline(&self) -> bool {
+        self.replay.is_none() && Instant::now() >= self.deadline
+    }
+
     pub fn elapsed(&self) -> f64 {
         self.start.elapsed().as_secs_f64()
     }
